@@ -331,6 +331,19 @@ def build_args(call):
                     "lt": lambda: x < an.DECAngle(v), "llh2xyz": lambda: cv.llh2xyz(x, x), "rad": lambda: x.rad(),
                     "vincdir": lambda: gd.vincdir(x, x, x, 1000.0)}[op]()
         return f, [obj, a["op"]]
+    if fn == "ntv2_obj":
+        # the caller reads a grid file once and keeps the object for later queries, possibly with another file open as well
+        nt = repo.mod("geodepy.ntv2reader")
+        _ntv2_fixture()
+        path = _NTV2[0 if a["file"] == "A" else 1]
+
+        def f(which, la, lo, method):
+            g = GRIDS.get(which)
+            if g is None:
+                g = GRIDS[which] = nt.read_ntv2_file(path)
+            meta = sorted((n, sg.s_lat, sg.n_lat, sg.e_long, sg.w_long, sg.lat_inc, sg.long_inc, sg.gs_count) for n, sg in g.subgrids.items())
+            return (nt.interpolate_ntv2(g, la, lo, method), meta)
+        return f, [a["file"], a["lat"], a["lon"], a["method"]]
     if fn == "ntv2":
         nt = repo.mod("geodepy.ntv2reader")
         path = _ntv2_fixture()
@@ -343,6 +356,7 @@ def build_args(call):
 
 
 _NTV2 = []
+GRIDS = {}          # grid objects the "caller" keeps between calls of one history (cleared by the executor per history)
 
 
 def _ntv2_fixture():
@@ -362,7 +376,17 @@ def _ntv2_fixture():
     tmp = path + ".%d" % os.getpid()
     NF.write(tmp, [NF.sanitise(parent), NF.sanitise(child)])
     os.replace(tmp, path)
-    _NTV2[:] = [path]
+    # a second file: same sub-grid name, other extents, spacing and fields (two products open in one session)
+    other = {"name": "PARENT", "parent": "NONE", "s_lat": -35.0 * 3600, "e_long": -149.0 * 3600, "lat_inc": 1800.0, "long_inc": 1800.0,
+             "nrows": 5, "ncols": 5, "fields": [[-3.0, 0.25, 0.5] + [0.0] * 9, [4.0, -0.125, 0.25] + [0.0] * 9,
+                                               [1.5] + [0.0] * 11, [2.5] + [0.0] * 11]}
+    extra = {"name": "EXTRA", "parent": "NONE", "s_lat": 10.0 * 3600, "e_long": 20.0 * 3600, "lat_inc": 600.0, "long_inc": 600.0,
+             "nrows": 4, "ncols": 4, "fields": [[9.0] + [0.0] * 11, [8.0] + [0.0] * 11, [0.0] * 12, [0.0] * 12]}
+    path_b = path[:-4] + "_b.gsb"
+    tmp = path_b + ".%d" % os.getpid()
+    NF.write(tmp, [NF.sanitise(other), NF.sanitise(extra)])
+    os.replace(tmp, path_b)
+    _NTV2[:] = [path, path_b]
     return path
 
 
@@ -497,6 +521,12 @@ def call_strategy(families=False):
             k=st.sampled_from([2, 0.5, -3, 1.5])),
     ]
     pool += [
+        _fd("ntv2_obj", file=st.sampled_from(["A", "B"]), lat=S.floats(-34.9, -33.1), lon=S.floats(147.1, 148.9),
+            method=st.sampled_from(["bilinear", "bicubic"])),
+        _fd("ntv2_obj", file=st.sampled_from(["A", "B", "B"]), lat=S.floats(-34.9, -33.1), lon=S.floats(147.1, 148.9),
+            method=st.sampled_from(["bilinear", "bicubic"])),
+        _fd("conform7", trans=shipped_sd, neg=st.booleans(), X=_X.map(lambda p: [int(round(v)) for v in p]), vcv=st.none()),
+        _fd("llh2xyz", lat=st.integers(-90, 90), lon=st.integers(-180, 180), h=st.integers(-100, 9000), ell=_ell, kind=st.just("float")),
         _fd("angle_rounded", cls=st.sampled_from(["dms", "ddm"]), d=st.integers(0, 80), m=st.sampled_from([0, 29, 58, 59]), pos=st.booleans(),
             op=st.sampled_from(["dec", "hp", "str", "add", "eq", "lt", "llh2xyz", "rad", "vincdir"])),
         _fd("ntv2", lat=S.floats(-35.9, -31.1), lon=S.floats(144.1, 149.9), forward=st.booleans(), method=st.sampled_from(["bilinear", "bicubic"])),
